@@ -94,6 +94,12 @@ def run_case(ctx):
     results = {}
     p0 = ctx.poison
     use_cli = fformat == "array" and bool(src.draw("cli", 0, 1))
+    pre = ()
+    if not use_cli and pos is not None and src.flag("object_reuse", 4):
+        # (with pos=None a reused object deliberately keeps the position of its previous slice)
+        # the same Mandoline object was used before for a slice with ANOTHER normal
+        n0 = (cn + 1 + src.draw("object_reuse.n", 0, 1)) % 3
+        pre = ((n0, m.geo_low[n0] + (m.geo_high[n0] - m.geo_low[n0]) * 0.37),)
     sig["entry"] = "cli" if use_cli else "api"
     for tag, serial, poison in (("pool/poisonA", False, p0), ("pool/poisonB", False, (p0 + 2) % 5),
                                 ("serial/poisonA", True, p0)):
@@ -102,7 +108,7 @@ def run_case(ctx):
         if use_cli:
             o = cli_slice(ctx, path, req, limit, serial, outfile, cn, pos)
         else:
-            o = slice_call(ctx, path, req, limit, serial, fformat, outfile, cn, pos)
+            o = slice_call(ctx, path, req, limit, serial, fformat, outfile, cn, pos, pre=pre)
         if not o.ok:
             raise Violation({**sig, "oracle": "slice-raises", **o.exc_sig()},
                             f"slice ({tag}) raised {o.exc!r}; normal={cn} pos={pos} ({pkind}) fields={req} limit={limit} "
